@@ -440,7 +440,7 @@ func (sc signCase) String() string {
 
 func (e *env) signChecks() {
 	c := e.c
-	ctxLens := alph.Lengths
+	ctxLens := []int{0, 1, 31, 32, 33, 64, 255, 256} // every context length 0..400 is in sign-lengths
 	if !c.Thorough {
 		ctxLens = []int{0, 1, 32, 255}
 	}
@@ -648,7 +648,7 @@ func fixedHash(d []byte) hash.Hash                { return fixedDigest{append([]
 
 func (e *env) flipChecks() {
 	c := e.c
-	nBase := c.Pick(4, 24)
+	nBase := c.Pick(4, 16)
 	const per = 512 + 256 + 128 + 128
 	lens := []int{1, 16, 33, 64, 129, 255}
 	c.Par("flips", nBase*per, func(w *mc.W, i int) {
